@@ -178,6 +178,8 @@ func (w *World) Exec(op Op, ctx context.Context) {
 			ival, err = c.P.Add(ctx, op.Tok, op.Delta)
 		case "rev":
 			val, err = c.P.Rev(ctx, op.Tok)
+		case "revsub":
+			val, err = c.P.RevSub(ctx, op.Tok)
 		case "reader":
 			val, err = c.P.ReadAll(ctx, op.Tok, bytes.NewReader(Payload(op.Tok, op.Size)))
 		case "notifyrev":
@@ -289,6 +291,7 @@ func (w *World) consume(op Op, ch <-chan int) {
 // that the bubble can drain.
 func (w *World) Teardown() {
 	w.E.ClearInvariants()
+	w.E.doneOnce.Do(func() { close(w.E.Done) })
 	for _, c := range w.Clients {
 		if called, _ := c.closeState(); !called {
 			c := c
